@@ -128,6 +128,8 @@ def _nonlin_solver(fcn, x0, params,
                 print("%6d: |dx|=%.3e, |f|=%.3e" % (i, dx_norm, y_norm))
         if to_stop:
             converge = True
+            # return the iterate that passed the stopping test, not the previous one
+            x = xnew
             break
 
         # adjust forcing parameters for inexact solve
